@@ -108,6 +108,30 @@ fn gen_cases(tier: Tier) -> Vec<Case> {
                         limit: l as i64,
                     });
                 }
+                // leaves which are shapes with content (text, CDATA, child element, explicit end tag) under groups
+                if d >= 1 {
+                    let kinds = vec![0usize; (d - 1) as usize];
+                    for (ln, leaf, extra_depth) in [
+                        ("leaf-text-content", "<rect wh=\"1\">hi</rect>", 0u32),
+                        ("leaf-text-element", "<rect wh=\"1\"/><text xy=\"0\">hi</text>", 0),
+                        ("leaf-cdata", "<rect wh=\"1\"><![CDATA[c]]></rect>", 0),
+                        ("leaf-end-tag", "<rect wh=\"1\" text=\"t\"></rect>", 0),
+                        ("leaf-box-content", "<rect wh=\"1\"/><box wh=\"2\">b</box>", 0),
+                        ("leaf-with-title", "<rect wh=\"1\"><title>t</title></rect>", 1),
+                    ] {
+                        let body = nest(&kinds, leaf);
+                        let (doc, cfg) = with_limit("depth", l, via, &body);
+                        v.push(Case {
+                            family: format!("depth/{ln}"),
+                            doc,
+                            cfg,
+                            expect: if d + extra_depth > l { None } else { Some(1) },
+                            unasserted: false,
+                            param: (d + extra_depth) as i64,
+                            limit: l as i64,
+                        });
+                    }
+                }
                 // leaf alone at depth 1
                 if d == 1 {
                     let (doc, cfg) = with_limit("depth", l, via, "<rect wh=\"1\"/>");
@@ -382,6 +406,11 @@ fn gen_cases(tier: Tier) -> Vec<Case> {
                     ("literal-in-svg", format!("<svg><rect wh=\"1\"/><var v=\"{lit}\"/></svg>")),
                     ("copy", format!("<g w=\"{lit}\"><var v=\"$w\"/><rect wh=\"1\"/></g>")),
                     ("two", format!("<var a=\"b\" v=\"{lit}\"/><rect wh=\"1\"/>")),
+                    // the length is counted in characters; every kind of variable is limited
+                    ("multibyte", format!("<var v=\"{}\"/><rect wh=\"1\"/>", "\u{e9}".repeat(n as usize))),
+                    ("for-var", format!("<for data=\"'{lit}'\" var=\"v\"><rect wh=\"1\"/></for>")),
+                    ("for-var-second-item", format!("<rect wh=\"1\"/><for data=\"'a', '{lit}'\" var=\"v\"><g/></for>")),
+                    ("loop-var", format!("<loop count=\"1\" loop-var=\"i\" start=\"1{}\"><rect wh=\"1\"/></loop>", "1".repeat((n as usize).saturating_sub(1)))),
                 ];
                 for (name, body) in forms {
                     let (doc, cfg) = with_limit("var", l, via, &body);
